@@ -33,6 +33,7 @@ type SpecEnv struct {
 	depth   int
 	payload map[string]types.Type
 	quantBound map[string]bool
+	guard *Term
 }
 
 var untypedInt = types.Typ[types.UntypedInt]
@@ -153,6 +154,13 @@ func (ev *SpecEnv) importedPkg(name string) *types.Package {
 	p := ev.pkg()
 	if p == nil {
 		return nil
+	}
+	if path, ok := ev.x.E.aliases[ev.pkgPath][name]; ok {
+		for _, im := range p.Imports() {
+			if im.Path() == path {
+				return im
+			}
+		}
 	}
 	for _, im := range p.Imports() {
 		if im.Name() == name {
@@ -807,6 +815,50 @@ func (ev *SpecEnv) call(n *SCall) TV {
 	case "lexLess", "lexLE":
 		a, b := ev.eval(n.Args[0]), ev.eval(n.Args[1])
 		return TV{ev.lex(a, b, name == "lexLE"), boolT}
+	case "countTrue", "countTrueVisited":
+		// number of keys mapped to true in a map[K]bool (countTrueVisited: among the keys the enclosing map-range loop has produced)
+		var mexpr SExpr
+		if len(n.Args) > 0 {
+			mexpr = n.Args[0]
+		}
+		var rng *ssa.Range
+		if name == "countTrueVisited" {
+			if ev.loop == nil || ev.fr == nil {
+				unsupp("countTrueVisited outside a loop invariant")
+			}
+			for _, in := range ev.loop.header.Instrs {
+				if nx, ok := in.(*ssa.Next); ok {
+					if r, ok := nx.Iter.(*ssa.Range); ok {
+						rng = r
+					}
+				}
+			}
+			if rng == nil {
+				unsupp("countTrueVisited: not a map range loop")
+			}
+		}
+		var mv *Term
+		var mt *types.Map
+		if mexpr != nil {
+			m := ev.eval(mexpr)
+			mt = m.t.Underlying().(*types.Map)
+			mv = m.v.(*Term)
+		} else {
+			mt = rng.X.Type().Underlying().(*types.Map)
+			mv = ev.fr.val(rng.X).(*Term)
+		}
+		dom, val, _, ks, vs := x.mapHeaps(ev.state(), mt)
+		rs := x.refSort()
+		domArr := tc.Select(ev.state().getHeap(dom, SArr(rs, SArr(ks, SBool))), mv)
+		valArr := tc.Select(ev.state().getHeap(val, SArr(rs, SArr(ks, vs))), mv)
+		if name == "countTrueVisited" {
+			vis, ok := ev.state().getCell(rng)
+			if !ok {
+				unsupp("countTrueVisited: iteration not started")
+			}
+			return TV{x.cntTrue(vis.(TupleV)[0].(*Term), valArr), intT}
+		}
+		return TV{x.cntTrue(domArr, valArr), intT}
 	case "in":
 		k := ev.eval(n.Args[0])
 		m := ev.eval(n.Args[1])
